@@ -51,6 +51,7 @@ class Check:
         self.t0 = time.time()
         self.persist = True
         self.equiv = set()
+        self.soft_skipped = set()
 
     # recording ---------------------------------------------------------------
     def ob(self, rule, fi, node, fact, ok, detail='', construct=None, nontrivial=True, soft=False):
@@ -87,7 +88,7 @@ class Check:
         for o in self.obs:
             counts[o.rule] = counts.get(o.rule, 0) + 1
         for rule, minimum in self.minimums.items():
-            if counts.get(rule, 0) < minimum:
+            if counts.get(rule, 0) < minimum and rule not in self.soft_skipped:
                 self.errors.append((rule, 'rule matched %d instance(s), fewer than the %d confirmed by reading '
                                           '(a rule that matches nothing must not pass vacuously)' % (counts.get(rule, 0), minimum)))
         violations = []
